@@ -74,22 +74,31 @@ def _shallow_components(b, local, depth=0):
 
 
 def filter_fn(prog):
-    return [b for b in prog.prod_bodies() if (b.impl_self_def or "").endswith("PacketWindowFilter") and b.method == "validate_packet_id" and b.root == b.defp]
+    """the replay filter's verdict function, by role: the public method of the window-filter type that takes ids and returns bool"""
+    c = [b for b in prog.prod_bodies() if (b.impl_self_def or "").endswith("PacketWindowFilter") and b.root == b.defp and b.local_ty(0) == "bool"
+         and b.argc >= 2 and b.local_ty(2) == "u64"]
+    pub = [b for b in c if b.j.get("vis") == "Public"]
+    return pub or c
 
 
-def run(ctx):
-    prog = ctx.prog
+def filter_roles(prog):
+    """(filter function paths, wrapper paths): wrappers are workspace functions that only forward to the filter and return its bool"""
     ff = filter_fn(prog)
-    ctx.floor("F4", "replay filter function", 1, len(ff))
     wrappers = set()
     fpaths = {b.defp for b in ff}
-    # wrappers: workspace functions that only forward to the filter and return its bool
     for b in prog.prod_bodies():
         if b.defp in fpaths or b.root != b.defp or b.local_ty(0) != "bool":
             continue
         cs = [c for (_, c, _) in b.calls()]
         if len(cs) == 1 and cs[0].target in fpaths:
             wrappers.add(b.defp)
+    return ff, fpaths, wrappers
+
+
+def run(ctx):
+    prog = ctx.prog
+    ff, fpaths, wrappers = filter_roles(prog)
+    ctx.floor("F4", "replay filter function", 1, len(ff))
 
     def is_filter(c):
         return c.target in fpaths or c.target in wrappers
@@ -240,7 +249,8 @@ def run(ctx):
     ctx.floor("F5", "tables that own per-session filter holders", 1, n_tab)
 
     # F4 constants
-    for b in ff:
+    for b0 in ff:
+        b = prog.flat(b0.defp)      # helper methods extracted from the filter are part of it
         # ring length from BoundsCheck constants
         Ls = set()
         shr, band, gts, assigns = [], [], [], []
@@ -260,7 +270,7 @@ def run(ctx):
                     elif rv["op"] == "Gt" and kb is not None:
                         gts.append((blk, kb, rv))
                 elif rv["k"] == "use" and op_int(rv["op"]) is not None and not s["p"][1] and b.local_name(s["p"][0]):
-                    assigns.append((b.local_name(s["p"][0]), op_int(rv["op"])))
+                    assigns.append((s["p"][0], op_int(rv["op"])))
         where = loc(b.sp)
         ctx.ob("F4", b.defp, "ring-length-known", where, len(Ls) == 1, f"ring length(s) from bounds checks: {sorted(Ls)}", ordinal=False)
         if len(Ls) != 1:
@@ -277,7 +287,14 @@ def run(ctx):
         win = [k for (_, k, _) in gts if k > L]
         ctx.ob("F4", b.defp, "window-size", where, win == [(L - 1) * 2**S] and win == [8128], f"window comparison constants {win}; need (L-1)*2^S = {(L - 1) * 2**S} = 8128", ordinal=False)
         clamp = [k for (_, k, _) in gts if k <= L]
-        diff_assign = [v for (n, v) in assigns if n == "diff"]
+        # the local that is clamped: the one compared with the clamp constant; the constants assigned to that same local
+        clamped = set()
+        for (_, k, rv_) in gts:
+            if k <= L:
+                pa_ = op_place(rv_["a"])
+                if pa_ is not None:
+                    clamped |= {l for l in b.slice_back([pa_[0]], stop_call=lambda cc: True)[0] if b.local_name(l)}
+        diff_assign = [v for (n, v) in assigns if n in clamped]
         # equivalent idiom: diff.min(L)
         for (_, c, t) in b.calls():
             if c.name == "Ord::min" and len(t["args"]) == 2 and op_int(t["args"][1]) is not None:
@@ -298,5 +315,6 @@ def run(ctx):
                         first_ok = True
         ctx.ob("F4", b.defp, "limit-test-first", where, first_ok, "packet_id >= limit => false is the first test", ordinal=False)
         # verdict = old != new
-        verdict = any(s["k"] == "assign" and s["p"][0] == 0 and s["rv"]["k"] == "bin" and s["rv"]["op"] == "Ne" for blk in b.rpo() for s in b.stmts(blk))
+        verdict = any(s["k"] == "assign" and not s["p"][1] and s["rv"]["k"] == "bin" and s["rv"]["op"] == "Ne" and
+                      (s["p"][0] == 0 or 0 in b.slice_fwd([s["p"][0]])[0]) for blk in b.rpo() for s in b.stmts(blk))
         ctx.ob("F4", b.defp, "verdict-is-bit-newly-set", where, verdict, "returns old != new", ordinal=False)
